@@ -156,6 +156,7 @@ func init() {
 			return Tuple{ex.ctx.Bool(f1.conflicts(f2)), ex.ctx.ConstS(64, int64(len(f1.w)))}
 		},
 		"vWindow": func(fr *frame, args []Value) Value { return nil },
+		"vJitter": func(fr *frame, args []Value) Value { return nil },
 		"vQuiesce": func(fr *frame, args []Value) Value {
 			g := fr.gor()
 			if g.id != 0 {
